@@ -22,9 +22,17 @@ void same_expr(const Linear_Expression& d, const Linear_Expression& s, const std
   b.flush();
   symrt::require(d.is_equal_to(s) && s.is_equal_to(d), label + ": is_equal_to across representations");
   symrt::require(d.all_homogeneous_terms_are_zero() == s.all_homogeneous_terms_are_zero(), label + ": all_homogeneous_terms_are_zero differs");
+  symrt::require(d.is_zero() == s.is_zero(), label + ": is_zero differs");
+  // structural observers: the non-zero terms visited by the iterators, lower_bound, all_zeroes
+  { Linear_Expression::const_iterator i = d.begin(), j = s.begin(); bool ok = true; unsigned steps = 0;
+    for (; i != d.end() && j != s.end() && steps < 64; ++i, ++j, ++steps) { if (i.variable().id() != j.variable().id()) { ok = false; break; } Coefficient x = *i, y = *j; if (symrt::decide(term(x) == ival(0)) || symrt::decide(term(y) == ival(0))) { ok = false; break; } }
+    symrt::require(ok && (i == d.end()) == (j == s.end()), label + ": the iterators over the non-zero terms differ (or visit a zero)"); }
+  for (unsigned v = 0; v < n; ++v) { Variables_Set vs; vs.insert(Variable(v)); symrt::require(d.all_zeroes(vs) == s.all_zeroes(vs), label + ": all_zeroes differs");
+    Linear_Expression::const_iterator i = d.lower_bound(Variable(v)), j = s.lower_bound(Variable(v));
+    symrt::require((i == d.end()) == (j == s.end()) && (i == d.end() || i.variable().id() == j.variable().id()), label + ": lower_bound differs"); }
   symrt::require(d.OK() && s.OK(), label + ": OK()");
 }
-void apply(Linear_Expression& e, const Linear_Expression& other, int op, unsigned n, const mpz_class& k, unsigned v1, unsigned v2) {
+void apply(Linear_Expression& e, const Linear_Expression& other, int op, unsigned n, const mpz_class& k, const mpz_class& k2, unsigned v1, unsigned v2) {
   switch (op) {
   case 0: e += other; break;
   case 1: e -= other; break;
@@ -40,6 +48,8 @@ void apply(Linear_Expression& e, const Linear_Expression& other, int op, unsigne
   case 11: neg_assign(e); break;
   case 12: e.set_space_dimension(n + 3); e.set_coefficient(Variable(n + 2), k); e.set_space_dimension(v1 + 1); break;
   case 13: e += Variable(v2); e -= Variable(v1); break;
+  case 14: if (e.space_dimension() == other.space_dimension() && k != 0 && k2 != 0) e.linear_combine(other, k, k2); break;
+  case 15: if (e.space_dimension() == other.space_dimension()) e.linear_combine_lax(other, k, k2); break;
   }
 }
 }
@@ -54,12 +64,12 @@ SYMRT_HARNESS(C16_expr) {
   same_expr(d, s, "C16 build");
   bool mixed = symrt::flag("mixed");
   for (unsigned t = 0; t < steps; ++t) {
-    int op = symrt::choose(S("op", t), 14);
-    mpz_class k = symrt::input(S("k", t), -2, 2);
+    int op = symrt::choose(S("op", t), 16);
+    mpz_class k = symrt::input(S("k", t), -2, 2), k2 = (op >= 14) ? symrt::input(S("l", t), -2, 2) : mpz_class(1);
     unsigned dim = d.space_dimension(); if (dim == 0) break;
     unsigned v1 = symrt::choose(S("v", t), dim), v2 = symrt::choose(S("w", t), dim);
-    apply(d, mixed ? os : od, op, dim, k, v1, v2);
-    apply(s, mixed ? od : os, op, dim, k, v1, v2);
+    apply(d, mixed ? os : od, op, dim, k, k2, v1, v2);
+    apply(s, mixed ? od : os, op, dim, k, k2, v1, v2);
     same_expr(d, s, S("C16 after step ", t));
   }
   // the rows built from the results behave identically
